@@ -58,8 +58,8 @@ Proof.
 Qed.
 
 (* the property: a declaration gets exactly the block that documents it *)
-Theorem deliver_doc gs d g : distinct_ends gs -> In g gs -> documents g (d_line d) ->
-  fst (deliver (index gs) d) = g_text g.
+Theorem deliver_doc gs code d g : distinct_ends gs -> In g gs -> documents g (d_line d) ->
+  fst (deliver (index gs) code d) = g_text g.
 Proof.
   intros Hd Hin [Ht He]. unfold deliver, prior.
   assert (Hl : (d_line d <? 1)%N = false) by (apply N.ltb_ge; lia).
@@ -67,8 +67,8 @@ Proof.
   rewrite (index_complete gs g Hd Hin Ht). reflexivity.
 Qed.
 
-Theorem deliver_none gs d :
-  (forall g, In g gs -> ~ documents g (d_line d)) -> fst (deliver (index gs) d) = [].
+Theorem deliver_none gs code d :
+  (forall g, In g gs -> ~ documents g (d_line d)) -> fst (deliver (index gs) code d) = [].
 Proof.
   intros Hno. unfold deliver, prior. destruct (d_line d <? 1)%N eqn:El; [reflexivity|].
   destruct (ilookup (d_line d - 1) (index gs)) as [g|] eqn:E; [|reflexivity].
@@ -76,14 +76,61 @@ Proof.
   split; auto. apply N.ltb_ge in El. lia.
 Qed.
 
-(* the second-closest block: the non-trailing group ending two lines above the doc block, or
-   above the declaration when there is no doc block *)
-Theorem deliver_second gs d : d_second d = true ->
-  snd (deliver (index gs) d) =
-  text_of (match prior (index gs) (d_line d) 1 with
-           | Some doc => prior (index gs) (g_start doc) 2
-           | None => prior (index gs) (d_line d) 2 end).
-Proof. intros H. unfold deliver. rewrite H. destruct (prior (index gs) (d_line d) 1); reflexivity. Qed.
+(* the anchor of the second-closest lookup: the first line of the doc block, or the declaration's
+   own line when it has no doc block *)
+Theorem anchor_doc gs d g : distinct_ends gs -> In g gs -> documents g (d_line d) -> anchor (index gs) d = g_start g.
+Proof.
+  intros Hd Hin [Ht He]. unfold anchor, prior.
+  assert (Hl : (d_line d <? 1)%N = false) by (apply N.ltb_ge; lia).
+  rewrite Hl. replace (d_line d - 1)%N with (g_end g) by lia.
+  rewrite (index_complete gs g Hd Hin Ht). reflexivity.
+Qed.
+Theorem anchor_nodoc gs d : (forall g, In g gs -> ~ documents g (d_line d)) -> anchor (index gs) d = d_line d.
+Proof.
+  intros Hno. unfold anchor, prior. destruct (d_line d <? 1)%N eqn:El; [reflexivity|].
+  destruct (ilookup (d_line d - 1) (index gs)) as [g|] eqn:E; [|reflexivity].
+  apply trailing_never_indexed in E. destruct E as [Ht [He Hin]]. exfalso. apply (Hno g Hin).
+  split; auto. apply N.ltb_ge in El. lia.
+Qed.
+
+Lemma has_code_In code l : has_code code l = true <-> In l code.
+Proof.
+  unfold has_code. rewrite existsb_exists. split.
+  - intros [x [Hin He]]. apply N.eqb_eq in He. subst. exact Hin.
+  - intros H. exists l. split; [exact H|apply N.eqb_refl].
+Qed.
+
+(* the second-closest block: the block [g] that ends two lines above the anchor, the line in
+   between being blank, is delivered ... *)
+Definition second_closest (code : list N) (a : N) (g : group) : Prop :=
+  g_trailing g = false /\ (g_end g + 2 = a)%N /\ ~ In (a - 1)%N code.
+Theorem deliver_second gs code d g : distinct_ends gs -> d_second d = true -> In g gs ->
+  second_closest code (anchor (index gs) d) g -> snd (deliver (index gs) code d) = g_text g.
+Proof.
+  intros Hd Hs Hin (Ht & He & Hb). unfold deliver. rewrite Hs. cbn [snd].
+  destruct (has_code code (anchor (index gs) d - 1)) eqn:Ec; [apply has_code_In in Ec; contradiction|].
+  unfold prior. assert (Hl : (anchor (index gs) d <? 2)%N = false) by (apply N.ltb_ge; lia). rewrite Hl.
+  replace (anchor (index gs) d - 2)%N with (g_end g) by lia.
+  rewrite (index_complete gs g Hd Hin Ht). reflexivity.
+Qed.
+(* ... nothing is delivered across a line of code ... *)
+Theorem deliver_second_not_across_code gs code d : In (anchor (index gs) d - 1)%N code ->
+  snd (deliver (index gs) code d) = [].
+Proof.
+  intros H. unfold deliver. cbn [snd]. apply has_code_In in H. rewrite H. destruct (d_second d); reflexivity.
+Qed.
+(* ... and nothing when there is no such block *)
+Theorem deliver_second_none gs code d :
+  (forall g, In g gs -> ~ second_closest code (anchor (index gs) d) g) -> snd (deliver (index gs) code d) = [].
+Proof.
+  intros Hno. unfold deliver. cbn [snd]. destruct (d_second d); [|reflexivity].
+  destruct (has_code code (anchor (index gs) d - 1)) eqn:Ec; [reflexivity|].
+  unfold prior. destruct (anchor (index gs) d <? 2)%N eqn:El; [reflexivity|].
+  destruct (ilookup (anchor (index gs) d - 2) (index gs)) as [g|] eqn:E; [|reflexivity].
+  apply trailing_never_indexed in E. destruct E as [Ht [He Hin]]. exfalso. apply (Hno g Hin).
+  split; [exact Ht|]. split; [apply N.ltb_ge in El; lia|].
+  intros Hc. apply has_code_In in Hc. congruence.
+Qed.
 
 Theorem package_comments_spec gs : package_comments gs = flat_map g_text gs.
 Proof. reflexivity. Qed.
